@@ -127,7 +127,8 @@ fn chain_cycles(outer: &Spec, inner: &Spec, st: &mut Stats, sink: &Sink) {
     st.configs += 1;
     for cyc in crate::explore::cycles(&letters, 3) {
         let (mut chain, mut a, mut b) = (build::<f64>(&chain_spec), build::<f64>(inner), build::<f64>(outer));
-        let len = 48;
+        // long enough for the outer window to fill and slide twice
+        let len = 48.max(3 * outer.n + 2 * inner.n + 20);
         let hist: Vec<f64> = (0..len).map(|i| cyc[i % cyc.len()]).collect();
         for i in 0..len {
             let x = hist[i];
@@ -439,7 +440,8 @@ pub fn run(ctx: &Ctx) -> CheckOutput {
         jobs.push(Box::new(move || {
             let mut st = Stats::default();
             let sink = Sink::new();
-            for (on, inn) in if quick { vec![(2usize, 2usize), (3, 2)] } else { vec![(2, 2), (3, 2), (2, 3), (5, 3), (9, 4)] } {
+            // (wide outer windows: code paths chosen by the window length must still see only the inner output)
+            for (on, inn) in if quick { vec![(2usize, 2usize), (3, 2), (17, 2), (33, 3)] } else { vec![(2, 2), (3, 2), (2, 3), (5, 3), (9, 4), (16, 2), (17, 2), (24, 5), (33, 3), (64, 7), (65, 2)] } {
                 let outer = mk(e.kind, on, Spec::echo());
                 for inner in inners(inn) {
                     chain_cycles(&outer, &inner, &mut st, &sink);
